@@ -17,7 +17,8 @@ ASSUMPTIONS = ["user callables answer as a function of the site (A-oracle)"]
 
 AW = {"T": 5, "F": 5, "R": 0.3, "BR": 0.3, "CT": 0.5, "CF": 0.5}
 NEIGHBOURS = [{"from": "C18", "limit": 400, "why": "the order of inherited and own contracts on real calls"},
-              {"from": "C17", "limit": 400, "why": "the lists evaluated are those of the class of the instance"}]
+              {"from": "C17", "limit": 400, "why": "the lists evaluated are those of the class of the instance"},
+              {"from": "C05", "limit": 1200, "why": "evaluation of a conjunctive group stops at its first falsy condition: later conditions are not even prepared"}]
 
 
 def cases(tier, rng):
@@ -48,6 +49,30 @@ def seq_cases(tier, rng):
             c2["cond"] = [[k, (genck.T(100 + k) if rng.random() < 0.5 else genck.F(100 + k)) if k in ids else a] for k, a in c["cond"]]
             steps.append(c2)
         yield "seq", {"dom": "checker-sequence", "seq": steps}
+    # calls on one callable that differ in WHICH optional names they supply (through **kw): a condition / capture /
+    # error factory with an optional parameter gets the value of the call at hand or its own default - never what an
+    # earlier call made of it
+    for async_ in (False, True):
+        for role in ("pre", "post"):
+            for orders in ([0, 1], [1, 0], [0, 1, 0], [1, 0, 1], [0, 0, 1], [1, 1, 0]):
+                for truth in (genck.T, genck.F):
+                    lv = {"pre": [], "snaps": [], "posts": []}
+                    c = genck.base_case("function", async_, [lv])
+                    genck.set_sig(c, [{"name": "x", "kind": "posOrKw", "default": None}, {"name": "kw", "kind": "varKw", "default": None}])
+                    con = genck.contract(2, ["x", "k"] + (["result"] if role == "post" else []), mandatory=["x"] + (["result"] if role == "post" else []),
+                                         err={"fac": {"args": ["x", "k"]}})
+                    lv["pre" if role == "pre" else "posts"].append(con)
+                    if role == "post":
+                        lv["snaps"].append(genck.snapshot(4, "s4", ["x", "k"]))
+                    c["cond"] = [[2, truth(102)]]
+                    c["args"], c["kwargs"] = [10], []
+                    genck.fill_oracle_defaults(c)
+                    steps = []
+                    for o in orders:
+                        st = copy.deepcopy(c)
+                        st["kwargs"] = [["k", 40]] if o else []
+                        steps.append(st)
+                    yield "seq-varying-optional-names", {"dom": "checker-sequence", "seq": steps}
 
 
 def driver_inputs(case):
